@@ -141,6 +141,24 @@ def run(prop: str, tier: str) -> int:
         if not all(any(e["a"] == "abort" for e in t) and any(e["a"] == "zombie" for e in t) for t in directed):
             V.notes.append("qfree has no suspension point in this tree: the stop-inside-an-instruction schedules degenerate to ordinary steps")
         traces += directed
+        # a stop that takes time: the qubits are given back one after the other and other applications run in between
+        scripts2 = []
+        for A, B in ((0, 1), (1, 0), (2, 1)):
+            two = [("init", A, 2), ("begin", A, "alloc0"), ("step", A), ("step", A), ("begin", A, "alloc1"), ("step", A), ("step", A), ("init", B, 2)]
+            one = [("init", A, 2), ("begin", A, "alloc1"), ("step", A), ("step", A), ("init", B, 2)]
+            b0 = [("begin", B, "alloc0"), ("step", B), ("step", B)]
+            b1 = [("begin", B, "alloc1"), ("step", B), ("step", B)]
+            again = [("init", A, 1), ("begin", A, "alloc0"), ("step", A), ("step", A), ("stopbegin", B), ("begin", A, "free0"), ("step", A), ("step", A),
+                     ("stopstep", B), ("stopstep", B), ("stopstep", B), ("stop", A), ("stop", B)]
+            scripts2.append(two + [("stopbegin", A)] + b0 + [("stopstep", A)] + b1 + [("stopstep", A)] + again)
+            scripts2.append(two + [("stopbegin", A)] + b0 + b1 + [("stopstep", A), ("stopstep", A)] + again)
+            scripts2.append(two + b0 + [("stopbegin", A), ("stopstep", A)] + b1 + [("stopstep", A)] + again)
+            scripts2.append(one + [("stopbegin", A)] + b0 + [("stopstep", A)] + b1 + again)
+            scripts2.append(two + [("stopbegin", A), ("stopstep", A), ("stopstep", A)] + b0 + again)
+        slow = [rig.controller_script(sc) for sc in scripts2]
+        if not any(any(e["a"] == "stopbegin" for e in t) for t in slow):
+            V.notes.append("the reset of a physical qubit has no suspension point in this tree: the slow-stop schedules degenerate to ordinary stops")
+        traces += slow
         rows = [{"id": i + 1, "events": t} for i, t in enumerate(traces)]
         res = C.run_tlc_sharded("ControllerTrace", rows, tmp, shards=n)
         bad = {}
